@@ -501,7 +501,12 @@ class ResultQuantifier(CanBehaveLikeAVariable[T], ABC):
         SymbolGraph().remove_dead_instances()
         self._reset_conclusion_deduplication_()
         self._refresh_domains_taken_from_the_symbol_graph_()
-        yield from map(self._process_result_, self._evaluate__())
+        try:
+            yield from map(self._process_result_, self._evaluate__())
+        finally:
+            # between two evaluations the query does not hold on to the instances it ranged over (the lookup is
+            # lazy: a fresh domain remembers nothing until it is walked)
+            self._refresh_domains_taken_from_the_symbol_graph_()
 
     def _refresh_domains_taken_from_the_symbol_graph_(self):
         """
